@@ -2,61 +2,46 @@ import Tahoe.Storage.ExpireLemmas
 /-!
 # C26 - Garbage collection deletes exactly the expired shares
 
-Property theorems over `Tahoe.Storage.Expire.processShare` (model of
-`LeaseCheckingCrawler.process_share` + `cancel_lease`, age mode repaired by
-`fixes/C26-age-mode.diff`).
+Property theorems over `Tahoe.Storage.Expire` (model of `LeaseCheckingCrawler.process_share` /
+`process_bucket`, `ShareFile/MutableShareFile.cancel_lease`, and of the `tahoe.cfg` → crawler
+configuration path; age mode as repaired by `fixes/C26-age-mode.diff`, now in /repo).
 
-FULL STATEMENT (not provable of the code, see the two counterexamples below):
-  `deleted_iff_all_expired : cfg.enabled = true →
-     ((processShare cfg now ty leases).removed = true ↔
-        typeEnabled cfg ty = true ∧ ∀ l ∈ leases, DocExpired cfg now l)`
-It fails (a) when two leases of one share carry the same cancel secret - `cancel_lease(secret)`
-removes every lease with that secret, so a valid lease is cancelled together with an expired one
-(`shared_cancel_secret_counterexample`), and a repeated secret among the expired leases makes the
-second `cancel_lease` raise out of the crawler (`shared_cancel_secret_raises_counterexample`);
-(b) for a share without any lease, which is counted as recovered but never unlinked
-(`zero_lease_counterexample`).  Both are recorded in `known_findings.d/C26.json`; the theorem
-proved is `deleted_iff_all_expired_partial`, guarded by `leases ≠ []` and `DistinctSecrets leases`.
+## Coverage of the statement (properties.jsonl C26)
+
+| clause of the statement | theorem(s) on the model |
+|---|---|
+| "with expiration disabled, the lease crawler never deletes a share" | `disabled_never_deletes` (share), `disabled_bucket_untouched` (whole bucket, any leases); "disabled" as the node configures it - absent / false `expire.enabled`: `not_enabled_in_tahoe_cfg_never_deletes` |
+| "with it enabled, a share is deleted ONLY IF every lease on it is expired under the configured policy (age: renewal + duration, or + override, in the past; cutoff: renewal before the cutoff date) …" | `deleted_iff_all_expired` (→), policy = `DocExpired`, tied to the code's comparison by `modeExpired_iff_doc` and to the 31-day constants by `lease_duration_is_31_days` |
+| "… and its share type is enabled for expiry" | `deleted_iff_all_expired`; switches → types: `sharetype_switches_select_types` |
+| "such a share is deleted …" (IF direction, one pass over its bucket) | `deleted_iff_all_expired` (←), bucket level `bucket_pass_deletes_exactly_expired` (every share file of the bucket is processed, nothing raised) |
+| "… within one crawl cycle" | composition: C27 `covers_at_least_once(_proc)` (the bucket is handed to `process_bucket` in every completed cycle) + `bucket_pass_deletes_exactly_expired`; the glue - `LeaseCheckingCrawler.process_bucket` IS the `process_bucket` the base class calls - is class inheritance: correspondence only (whole-cycle runs through `start_slice`) |
+| cutoff date = midnight UTC of the configured day; duration strings | C48 (`parse_date`, `parse_duration`); here: the parsed values reach the crawler unchanged (`cutoff_and_override_reach_the_crawler`), time zones: correspondence + monitor only |
+| hypothesis of the full theorem: ≥ 1 lease, pairwise distinct cancel secrets (`WellFormedLeases`) | what the code does outside it: `shared_cancel_secret_counterexample`, `shared_cancel_secret_raises_counterexample`, `zero_lease_counterexample` (three open known findings) |
+| byte counters / histogram of the status page; on-disk rewriting of lease records by `cancel_lease` | not covered here (record layout: C29; `cancel_lease` is modelled as "remove every lease with that secret", tied by comparing the leases left on disk) |
 -/
 namespace Tahoe.C26
 open Tahoe.Storage.Expire
-
-/-- 31 days, the documented lease duration (docs/garbage-collection.rst). -/
-def leaseDuration : Int := 31 * 24 * 60 * 60
-
-/-- The create/renew timestamp of a lease: the server grants `expiry = renewal + 31 d`. -/
-def lastRenewal (l : Lease) : Int := l.expiry - leaseDuration
-
-/-- The DOCUMENTED expiry predicate (docs/garbage-collection.rst, the property statement):
-    age mode: `renewal + duration < now`, or `renewal + override < now` with an override;
-    cutoff mode: `renewal < cutoff`. -/
-def DocExpired (cfg : Config) (now : Int) (l : Lease) : Prop :=
-  match cfg.mode with
-  | .age none => lastRenewal l + leaseDuration < now
-  | .age (some o) => lastRenewal l + o < now
-  | .cutoff d => lastRenewal l < d
-
-instance (cfg : Config) (now : Int) (l : Lease) : Decidable (DocExpired cfg now l) := by
-  unfold DocExpired; cases cfg.mode with
-  | age ov => cases ov <;> exact inferInstance
-  | cutoff d => exact inferInstance
 
 /-- The constants the live source uses are the documented 31 days: the renewal-time hack of
     `LeaseInfo.get_grant_renew_time_time` and the duration the server grants. -/
 theorem lease_duration_is_31_days :
     (Tahoe.Generated.Gc.lease_grant_renew_offset : Int) = leaseDuration ∧
-    (Tahoe.Generated.Gc.server_lease_duration : Int) = leaseDuration := by
-  decide
+    (Tahoe.Generated.Gc.server_lease_duration : Int) = leaseDuration :=
+  grant_renew_offset_is_31_days
 
-/-- The (repaired) mode test of `process_share` is the documented predicate. -/
-theorem modeExpired_iff_doc (cfg : Config) (now : Int) (l : Lease) :
-    modeExpired cfg now l = true ↔ DocExpired cfg now l := by
-  have h := lease_duration_is_31_days.1
-  unfold modeExpired DocExpired age renewTime lastRenewal grantRenewOffset
-  rw [h]
-  cases cfg.mode with
-  | age ov => cases ov <;> simp <;> omega
-  | cutoff d => simp
+/-- THE FULL THEOREM.  With expiration enabled, on every share with at least one lease and pairwise
+    distinct cancel secrets (`WellFormedLeases` - this excludes exactly the inputs of the three open
+    findings, whose behaviour is pinned by the counterexamples below), for every configuration,
+    clock and share type: the crawler raises nothing, cancels exactly the leases that are expired
+    under the DOCUMENTED predicate (and only when the share type is enabled), and removes the share
+    file iff its type is enabled and every lease is expired. -/
+theorem deleted_iff_all_expired (cfg : Config) (now : Int) (ty : ShareType) (leases : List Lease)
+    (hon : cfg.enabled = true) (hwf : WellFormedLeases leases) :
+    let r := processShare cfg now ty leases
+    r.raised = none ∧
+    r.share.leases = leases.filter (fun l => !(typeEnabled cfg ty && decide (DocExpired cfg now l))) ∧
+    (r.removed = true ↔ typeEnabled cfg ty = true ∧ ∀ l ∈ leases, DocExpired cfg now l) :=
+  processShare_wellformed cfg now ty leases hon hwf.1 hwf.2
 
 /-- With expiration disabled the lease crawler changes nothing: no lease is cancelled, the share
     file stays, nothing is raised - for every configuration, clock, share type and lease list. -/
@@ -70,77 +55,6 @@ example :
     let cfg : Config := { enabled := false, mode := .cutoff 2000000000, expImmutable := true, expMutable := true }
     (processShare cfg 1900000000 .immutable [⟨1, 1000⟩, ⟨2, 2000⟩]).removed = false := by decide
 
-/-- With expiration enabled, on a share that has at least one lease and whose leases carry
-    pairwise distinct cancel secrets: the crawler raises nothing, cancels exactly the leases that
-    are expired under the DOCUMENTED predicate (and only when the share type is enabled), and
-    removes the share file iff its type is enabled and every lease is expired. -/
-theorem deleted_iff_all_expired_partial (cfg : Config) (now : Int) (ty : ShareType) (leases : List Lease)
-    (hon : cfg.enabled = true) (hne : leases ≠ []) (hds : DistinctSecrets leases) :
-    let r := processShare cfg now ty leases
-    r.raised = none ∧
-    r.share.leases = leases.filter (fun l => !(typeEnabled cfg ty && decide (DocExpired cfg now l))) ∧
-    (r.removed = true ↔ typeEnabled cfg ty = true ∧ ∀ l ∈ leases, DocExpired cfg now l) := by
-  have hexp : ∀ l, expired cfg now ty l = (typeEnabled cfg ty && decide (DocExpired cfg now l)) := by
-    intro l
-    unfold expired
-    cases hte : typeEnabled cfg ty
-    · simp
-    · simp only [if_true, Bool.true_and]
-      by_cases hd : DocExpired cfg now l
-      · simp [hd, (modeExpired_iff_doc cfg now l).2 hd]
-      · have : modeExpired cfg now l = false := by
-          cases hm : modeExpired cfg now l
-          · rfl
-          · exact absurd ((modeExpired_iff_doc cfg now l).1 hm) hd
-        simp [hd, this]
-  -- the leases left after the loop are those whose secret is not among the expired ones
-  have hkeep : leases.filter (fun l => !((leases.filter (expired cfg now ty)).map (·.cancel)).contains l.cancel)
-      = leases.filter (fun l => !(expired cfg now ty l)) := by
-    apply List.filter_congr
-    intro l hl
-    congr 1
-    cases he : expired cfg now ty l
-    · apply Bool.eq_false_iff.2
-      intro hc
-      simp only [List.contains_eq_mem, List.mem_map, List.mem_filter, decide_eq_true_eq] at hc
-      obtain ⟨m, ⟨hm, hme⟩, hmc⟩ := hc
-      have := hds.inj hm hl hmc
-      subst this
-      rw [he] at hme; cases hme
-    · simp only [List.contains_eq_mem, List.mem_map, List.mem_filter, decide_eq_true_eq]
-      exact ⟨l, ⟨hl, he⟩, rfl⟩
-  have hca := cancelAll_distinct (leases.filter (expired cfg now ty)) true leases (fun _ => rfl)
-    (fun l hl => (List.mem_filter.1 hl).1) (hds.filter _)
-  rw [hkeep] at hca
-  have hfun : (fun l => !(expired cfg now ty l)) = (fun l => !(typeEnabled cfg ty && decide (DocExpired cfg now l))) := by
-    funext l; rw [hexp]
-  simp only [processShare, hon, if_true, hca, ShareResult.removed]
-  refine ⟨trivial, by rw [hfun], ?_⟩
-  by_cases hnone : leases.filter (expired cfg now ty) = []
-  · -- nothing expired: file stays; and not every lease is expired since there is one
-    simp only [hnone, if_true, Bool.not_true, Bool.false_eq_true, false_iff, not_and]
-    intro hte hall
-    obtain ⟨l, hl⟩ := List.exists_mem_of_ne_nil leases hne
-    have : l ∈ leases.filter (expired cfg now ty) := by
-      rw [List.mem_filter, hexp, hte]; simp [hl, hall l hl]
-    rw [hnone] at this; cases this
-  · simp only [hnone, if_false, Bool.not_not, List.isEmpty_iff]
-    rw [List.filter_eq_nil_iff]
-    constructor
-    · intro h
-      have hte : typeEnabled cfg ty = true := by
-        obtain ⟨l, hl⟩ := List.exists_mem_of_ne_nil _ hnone
-        have := (List.mem_filter.1 hl).2
-        rw [hexp] at this
-        exact (Bool.and_eq_true_iff.1 this).1
-      refine ⟨hte, ?_⟩
-      intro l hl
-      have := h l hl
-      rw [hexp, hte] at this
-      simpa using this
-    · intro ⟨hte, hall⟩ l hl
-      rw [hexp, hte]; simp [hall l hl]
-
 /-- Non-vacuity: age mode without override, one lease renewed 400 days ago and one 40 days ago,
     distinct secrets - both expired, the share goes; with the second renewed 10 days ago it stays
     and only the first lease is cancelled. -/
@@ -151,9 +65,102 @@ example :
     (processShare cfg t0 .immutable [old, ⟨2, t0 - 40 * 86400 + 31 * 86400⟩]).removed = true ∧
     (processShare cfg t0 .immutable [old, ⟨2, t0 - 10 * 86400 + 31 * 86400⟩]).share
       = ⟨true, [⟨2, t0 - 10 * 86400 + 31 * 86400⟩]⟩ ∧
-    DistinctSecrets [old, ⟨2, t0 - 10 * 86400 + 31 * 86400⟩] := by
+    WellFormedLeases [old, ⟨2, t0 - 10 * 86400 + 31 * 86400⟩] := by
   refine ⟨by decide, by decide, ?_⟩
-  simp [DistinctSecrets]
+  simp [WellFormedLeases, DistinctSecrets]
+
+/-! ### Whole buckets (`process_bucket`) -/
+
+/-- With expiration disabled a whole bucket is untouched, whatever its shares look like (any number
+    of leases, shared secrets): every share file is examined, none is changed, nothing is raised. -/
+theorem disabled_bucket_untouched (cfg : Config) (now : Int) (shares : List (ShareType × List Lease))
+    (hoff : cfg.enabled = false) :
+    let b := processBucket cfg now shares
+    b.raised = false ∧ b.shares.map (fun r => r.2.share) = shares.map (fun sh => (⟨true, sh.2⟩ : Share)) := by
+  have h := processBucketAux_noraise cfg now shares []
+    (fun sh _ => (disabled_never_deletes cfg now sh.1 sh.2 hoff).2.2)
+  simp only [processBucket, h, List.reverse_nil, List.nil_append, List.map_map, true_and]
+  apply List.map_congr_left
+  intro sh _
+  have := disabled_never_deletes cfg now sh.1 sh.2 hoff
+  simp only [ShareResult.removed, Bool.not_eq_false'] at this
+  show (processShare cfg now sh.1 sh.2).share = ⟨true, sh.2⟩
+  cases hs : (processShare cfg now sh.1 sh.2).share with
+  | mk pr ls => rw [hs] at this; simp only at this; rw [this.1, this.2.1]
+
+/-- One pass of the crawler over a bucket of well-formed shares, expiration enabled: nothing is
+    raised, EVERY share file of the bucket is processed (in listdir order), and each one is removed
+    iff its type is enabled and all its leases are expired under the documented predicate.
+    (With C27 - every bucket is passed to `process_bucket` in every completed cycle - this is the
+    "deleted within one crawl cycle" clause.) -/
+theorem bucket_pass_deletes_exactly_expired (cfg : Config) (now : Int)
+    (shares : List (ShareType × List Lease)) (hon : cfg.enabled = true)
+    (hwf : ∀ sh ∈ shares, WellFormedLeases sh.2) :
+    let b := processBucket cfg now shares
+    b.raised = false ∧
+    b.shares = shares.map (fun sh => (sh.1, processShare cfg now sh.1 sh.2)) ∧
+    ∀ sh ∈ shares, ((processShare cfg now sh.1 sh.2).removed = true ↔
+      typeEnabled cfg sh.1 = true ∧ ∀ l ∈ sh.2, DocExpired cfg now l) := by
+  have h := processBucketAux_noraise cfg now shares []
+    (fun sh hs => (deleted_iff_all_expired cfg now sh.1 sh.2 hon (hwf sh hs)).1)
+  refine ⟨by simp [processBucket, h], by simp [processBucket, h], ?_⟩
+  intro sh hs
+  exact (deleted_iff_all_expired cfg now sh.1 sh.2 hon (hwf sh hs)).2.2
+
+example :
+    let cfg : Config := { enabled := true, mode := .cutoff 1700006400, expImmutable := true, expMutable := false }
+    let shares : List (ShareType × List Lease) :=
+      [(.immutable, [⟨1, 1690000000⟩, ⟨2, 1691000000⟩]), (.mutable, [⟨3, 1690000000⟩]), (.immutable, [⟨4, 1800000000⟩])]
+    (processBucket cfg 1700000000 shares).shares.map (fun r => r.2.removed) = [true, false, false] ∧
+    (processBucket cfg 1700000000 shares).raised = false := by
+  decide
+
+/-! ### From `tahoe.cfg` to the crawler (`get_anonymous_storage_server`, `LeaseCheckingCrawler.__init__`) -/
+
+/-- "Expiration disabled" as a node is configured: when `expire.enabled` is absent or false, every
+    accepted configuration (whatever the other expire.* keys say) leaves every share untouched. -/
+theorem not_enabled_in_tahoe_cfg_never_deletes (s : Settings) (cfg : Config)
+    (hs : s.enabled = none ∨ s.enabled = some false) (hok : configFromSettings s = .ok cfg)
+    (now : Int) (ty : ShareType) (leases : List Lease) :
+    (processShare cfg now ty leases).removed = false ∧ (processShare cfg now ty leases).share.leases = leases := by
+  have hen : cfg.enabled = false := by
+    rw [(configFromSettings_ok s cfg hok).1]
+    rcases hs with h | h <;> simp [h]
+  exact ⟨(disabled_never_deletes cfg now ty leases hen).1, (disabled_never_deletes cfg now ty leases hen).2.1⟩
+
+/-- The share-type filter is exactly the two switches (default true): a type whose switch is false is
+    never enabled for expiry. -/
+theorem sharetype_switches_select_types (s : Settings) (cfg : Config) (hok : configFromSettings s = .ok cfg) :
+    typeEnabled cfg .immutable = s.immutable.getD true ∧ typeEnabled cfg .mutable = s.mutable.getD true := by
+  obtain ⟨_, h2, h3, _⟩ := configFromSettings_ok s cfg hok
+  exact ⟨h2, h3⟩
+
+/-- The parsed cutoff date / override duration reach the crawler unchanged, each only in its mode. -/
+theorem cutoff_and_override_reach_the_crawler (s : Settings) (cfg : Config) (hok : configFromSettings s = .ok cfg) :
+    (s.mode = some "cutoff-date" → ∃ d, s.cutoffDate = some d ∧ cfg.mode = .cutoff d) ∧
+    (s.mode = some "age" → cfg.mode = .age s.overrideDuration) := by
+  obtain ⟨_, _, _, h⟩ := configFromSettings_ok s cfg hok
+  constructor
+  · intro hm
+    rcases h with ⟨d, hd, hc, _⟩ | ⟨_, h2 | ⟨h2, _⟩⟩
+    · exact ⟨d, hd, hc⟩
+    · rw [hm] at h2; exact absurd (Option.some.inj h2) (by decide)
+    · rw [hm] at h2; cases h2
+  · intro hm
+    rcases h with ⟨_, _, _, h2⟩ | ⟨h1, _⟩
+    · rw [hm] at h2; exact absurd (Option.some.inj h2) (by decide)
+    · exact h1
+
+example :
+    configFromSettings ⟨some true, some "cutoff-date", some 864000, some 1700006400, some false, none⟩
+      = .ok { enabled := true, mode := .cutoff 1700006400, expImmutable := false, expMutable := true } ∧
+    configFromSettings ⟨none, none, none, none, none, none⟩
+      = .ok { enabled := false, mode := .age none, expImmutable := true, expMutable := true } ∧
+    configFromSettings ⟨some true, none, none, none, none, none⟩ = .error .missingMode ∧
+    configFromSettings ⟨none, some "bogus", none, none, none, none⟩ = .error .badMode := by
+  refine ⟨?_, ?_, ?_, ?_⟩ <;> simp [configFromSettings]
+
+/-! ### What the code does outside `WellFormedLeases` (the three open findings) -/
 
 /-- Negation witness for the unguarded statement (known finding `shared-cancel-secret-deletes-valid-lease`):
     override = 31 d, one lease renewed 400 days ago and one renewed today with the SAME cancel
